@@ -297,10 +297,19 @@ C07Viol(ev) == IF Lim > 0 /\ Cardinality(Running) + 1 > Lim THEN {Viol("C07", "l
 
 \* C13: no command of a guarded task
 C13Viol(ev) ==
-  LET isRoot == Len(ev.p) = 1 /\ ev.p[1][1] = "r" IN
-  IF GuardFails(ev.t, ev.v, isRoot) THEN {Viol("C13", T(ev.t).guard)}
-  ELSE IF T(ev.t).guard \in {"platform", "platreq"} THEN {Viol("C13", "platform")}
-  ELSE {}
+  LET isRoot == Len(ev.p) = 1 /\ ev.p[1][1] = "r"
+      es == ExpCmds(ev.t) ks == EntryPos(ev) IN
+  (IF GuardFails(ev.t, ev.v, isRoot) THEN {Viol("C13", T(ev.t).guard)}
+   ELSE IF T(ev.t).guard \in {"platform", "platreq"} THEN {Viol("C13", "platform")}
+   ELSE {})
+  \cup
+  \* "the calling task fails too": after a task call whose callee's guard fails no later command of the caller
+  \* starts - whatever the caller ignores (ignore_error is about exit statuses, a failed guard is not one)
+  (IF ks = {} THEN {}
+   ELSE LET k == CHOOSE k \in ks : TRUE IN
+        { Viol("C13", "caller-continued-after-guard-of-callee") :
+            k1 \in {k1 \in 1..(k-1) : es[k1].k = "call" /\ es[k].k = "sh"
+                                       /\ GuardFails(es[k1].cs.t, ResolveV(es[k1].cs.v, ev.v), FALSE)} })
 
 BeginViol(ev) == C01Viol(ev) \cup C02Viol(ev) \cup C03Viol(ev) \cup C06Viol(ev) \cup C07Viol(ev) \cup C13Viol(ev)
 
